@@ -288,6 +288,10 @@ class Converter:
         graph = self._current_fn
         self._current_fn = self._outer.pop()
         self._locals.pop()
+        # Operator domains used only inside the nested graph must still be imported by the
+        # enclosing function/model.
+        for domain, version in graph.opset_imports.items():
+            self._current_fn.opset_imports.setdefault(domain, version)
         return graph
 
     def _current_scope(self) -> dict[str, LocalSymValue]:
